@@ -12,6 +12,8 @@
 (*             <<"noneof", <<ts>>>>  <<"sel", <<ts>>>>  <<"end">>          *)
 (*             <<"empty">>  <<"cust", k, ok>>  <<"probe", id>>             *)
 (*             <<"cfgjust">> (just(..).configure(seq from ctx))            *)
+(*             <<"anyr">> any_ref()  <<"selr", <<ts>>>> select_ref!{..}    *)
+(*             (the by-reference primitives of BorrowInput kinds)          *)
 (*  sequence   <<"then",a,b>> <<"ithen",a,b>> <<"theni",a,b>>              *)
 (*             <<"delim",a,s,e>> <<"padded",a,p>>                          *)
 (*             <<"group",<<ps>>>> <<"grouparr",<<ps>>>>                    *)
@@ -154,7 +156,7 @@ SomeCanEmpty(s) == \E i \in DOMAIN s : CanEmpty(s[i])
 CanEmpty(g) ==
   LET o == Op(g) IN
   CASE o = "just" -> g[2] = <<>>
-    [] o \in {"any", "oneof", "noneof", "sel", "tree"} -> FALSE
+    [] o \in {"any", "oneof", "noneof", "sel", "tree", "anyr", "selr"} -> FALSE
     [] o \in {"end", "empty", "probe", "cfgjust", "cfgjustr"} -> TRUE
     [] o = "cust" -> g[2] = 0 /\ g[3]
     [] o \in {"then", "ithen", "theni"} -> CanEmpty(g[2]) /\ CanEmpty(g[3])
@@ -201,7 +203,7 @@ WFStrat(s) ==
     [] Op(s) \in {"skipuntil", "retry"} -> WF(s[2]) /\ WF(s[3]) /\ ~CanEmpty(s[2])
 WF(g) ==
   LET o == Op(g) IN
-  CASE o \in {"just", "any", "oneof", "noneof", "sel", "end", "empty", "cust", "probe", "cfgjust", "cfgjustr", "ref", "var", "tree"} -> TRUE
+  CASE o \in {"just", "any", "oneof", "noneof", "sel", "end", "empty", "cust", "probe", "cfgjust", "cfgjustr", "ref", "var", "tree", "anyr", "selr"} -> TRUE
     [] o \in {"then", "ithen", "theni", "or", "andis", "thenctx", "ignctx", "nested", "let"} -> WF(g[2]) /\ WF(g[3])
     [] o = "delim" -> WF(g[2]) /\ WF(g[3]) /\ WF(g[4])
     [] o = "padded" -> WF(g[2]) /\ WF(g[3])
@@ -223,7 +225,7 @@ IsNode(x) == /\ DOMAIN x # {} /\ 1 \in DOMAIN x
 HasOp(g, ops) ==
   LET o == Op(g) IN
   \/ o \in ops
-  \/ CASE o \in {"just", "any", "oneof", "noneof", "sel", "end", "empty", "cust", "probe", "cfgjust", "cfgjustr", "ref", "var", "tree"} -> FALSE
+  \/ CASE o \in {"just", "any", "oneof", "noneof", "sel", "end", "empty", "cust", "probe", "cfgjust", "cfgjustr", "ref", "var", "tree", "anyr", "selr"} -> FALSE
        [] o \in {"then", "ithen", "theni", "or", "andis", "thenctx", "ignctx", "nested", "padded", "let"} -> HasOp(g[2], ops) \/ HasOp(g[3], ops)
        [] o = "delim" -> HasOp(g[2], ops) \/ HasOp(g[3], ops) \/ HasOp(g[4], ops)
        [] o \in {"group", "grouparr", "choice", "choicev"} -> AnyHasOp(g[2], ops)
@@ -243,7 +245,7 @@ RECURSIVE SizeSeq(_)
 SizeSeq(s) == IF s = <<>> THEN 0 ELSE Size(Head(s)) + SizeSeq(Tail(s))
 Size(g) ==
   LET o == Op(g) IN
-  CASE o \in {"just", "any", "oneof", "noneof", "sel", "end", "empty", "cust", "probe", "cfgjust", "cfgjustr", "ref", "tree"} -> 1
+  CASE o \in {"just", "any", "oneof", "noneof", "sel", "end", "empty", "cust", "probe", "cfgjust", "cfgjustr", "ref", "tree", "anyr", "selr"} -> 1
     [] o \in {"then", "ithen", "theni", "or", "andis", "thenctx", "ignctx", "nested", "padded", "sep", "foldl", "foldr", "foldlw", "foldrw", "recover", "skipuntil", "retry"} -> 1 + Size(g[2]) + Size(g[3])
     [] o = "delim" -> 1 + Size(g[2]) + Size(g[3]) + Size(g[4])
     [] o \in {"group", "grouparr", "choice", "choicev"} -> 1 + SizeSeq(g[2])
